@@ -584,7 +584,10 @@ func (s *Session) wellTyped(st *State, t types.Type, v Term) Term {
 		}
 		return base
 	case *types.Struct, *types.Array:
-		return Lt(TZero, v)
+		if isOpaque(t) {
+			return TTrue // values of external struct types are abstract
+		}
+		return And(Lt(TZero, v), Le(v, s.H(st, "$brk", SInt)))
 	}
 	return TTrue
 }
